@@ -207,7 +207,9 @@ def _same_named(body, a, b_, name):
 
 
 # sensitivity pack (thorough tier)
-MUTANTS = [{'name': 'rune check dropped', 'file': 'src/subcommand/wallet/offer/accept.rs', 'old': '    if let Some(runes) = wallet.get_runes_balances_in_output(&outgoing)? {\n      ensure! {\n        runes.is_empty(),\n        "outgoing input {} contains runes", outgoing,\n      }\n    }\n', 'new': '', 'expect': ('R24.1', 'Accept::run', 'rune')},
+MUTANTS = [{'name': 'seeded-C24-a', 'patch': 'C24-a/patch.diff', 'expect': ('R24.1', 'Accept::run', 'simulate_transaction')},
+           {'name': 'seeded-C24-b', 'patch': 'C24-b/patch.diff', 'expect': ('R24.3', 'Accept::run', '')},
+           {'name': 'rune check dropped', 'file': 'src/subcommand/wallet/offer/accept.rs', 'old': '    if let Some(runes) = wallet.get_runes_balances_in_output(&outgoing)? {\n      ensure! {\n        runes.is_empty(),\n        "outgoing input {} contains runes", outgoing,\n      }\n    }\n', 'new': '', 'expect': ('R24.1', 'Accept::run', 'rune')},
            {'name': 'balance check weakened to >=', 'file': 'src/subcommand/wallet/offer/accept.rs', 'old': '      balance_change == self.amount.to_signed()?,', 'new': '      balance_change >= self.amount.to_signed()?,', 'expect': ('R24.1', 'Accept::run', 'simulate_transaction')}]
 
 
